@@ -1,4 +1,186 @@
-/- C06 — property theorems (stub; filled in by the owning work package). -/
-import Rdm.Basic
+/-
+  C06 — ELECTRE III respects dominance, equality and listing order.  Property theorems only (over `Rat`);
+  helper lemmas are in Rdm/Lemmas/Electre*.lean.  The float statement "times a power of two" is checked
+  metamorphically on the real code (harness c06.go); the theorem here is for every factor `c ≠ 0`.
+-/
+import Rdm.Lemmas.ElectreCred
+import Rdm.Lemmas.ElectreDominance
+import Rdm.Lemmas.ElectrePermutation
+import Mathlib.Tactic.NormNum
 namespace Rdm.Props.C06
+open Rdm
+
+/-- the guard of the property for every criterion in use -/
+def Guard (crits : List (Crit Rat)) (ec : KMap (ECrit Rat)) : Prop :=
+  ∀ c ∈ crits, ∀ t, ec.get? c.id = some t → Spec.C05.critInDomain t = true
+
+theorem guardAll_of_guard {crits : List (Crit Rat)} {ec : KMap (ECrit Rat)} (hg : Guard crits ec) : GuardAll crits ec :=
+  fun c hc t ht => critInDomain_guard t (hg c hc t ht)
+
+/-! ### monotonicity (dominance) -/
+
+/-- per criterion: concordance does not decrease and discordance does not increase when `a` gets better
+    (signed value `c1 ≤ c1'`) -/
+theorem partial_monotone_in_a (c1 c1' c2 mult mult' : Rat) (t : ECrit Rat) (h : Spec.C05.critInDomain t = true)
+    (hle : c1 ≤ c1') :
+    (calcElectreResult c1 c2 mult t).c ≤ (calcElectreResult c1' c2 mult' t).c ∧
+    (calcElectreResult c1' c2 mult' t).d ≤ (calcElectreResult c1 c2 mult t).d :=
+  (calc_betterRes t (critInDomain_guard t h).1 c1 c2 c1' c2 mult mult' (by linarith)).2
+
+/-- per criterion: concordance does not increase and discordance does not decrease when `b` gets better -/
+theorem partial_monotone_in_b (c1 c2 c2' mult mult' : Rat) (t : ECrit Rat) (h : Spec.C05.critInDomain t = true)
+    (hle : c2 ≤ c2') :
+    (calcElectreResult c1 c2' mult' t).c ≤ (calcElectreResult c1 c2 mult t).c ∧
+    (calcElectreResult c1 c2 mult t).d ≤ (calcElectreResult c1 c2' mult' t).d :=
+  (calc_betterRes t (critInDomain_guard t h).1 c1 c2' c1 c2 mult' mult (by linarith)).2
+
+/-- total concordance is monotone in every per-criterion concordance (same positive weights) -/
+theorem totalC_monotone (rs rs' : List (ESingle Rat))
+    (h : List.Forall₂ (fun r r' : ESingle Rat => r.k = r'.k ∧ r.res.c ≤ r'.res.c) rs rs')
+    (hk : ∀ r ∈ rs, 0 < r.k) : calculateTotalC rs ≤ calculateTotalC rs' :=
+  totalC_mono rs rs' h hk
+
+/-- credibility is monotone: larger concordance and smaller discordances give a larger credibility -/
+theorem credibility_monotone (C C' : Rat) (hC0 : 0 ≤ C) (hCC : C ≤ C') (hC1 : C' ≤ 1)
+    (rs rs' : List (ESingle Rat)) (h : List.Forall₂ BetterRes rs rs')
+    (hd : ∀ r ∈ rs, r.res.d ≤ 1) (hd' : ∀ r ∈ rs', 0 ≤ r.res.d) :
+    calculateCredibility C rs ≤ calculateCredibility C' rs' :=
+  calculateCredibility_mono C C' hC0 hCC hC1 rs rs' h hd hd'
+
+/-- dominance on the credibility matrix: if alternative `i'` is at least as good as `i` on every criterion then
+    σ(i', i) = 1 and for every third alternative x: σ(i, x) ≤ σ(i', x) and σ(x, i') ≤ σ(x, i) -/
+theorem credibility_matrix_dominance (alts : List (Alt Rat)) (crits : List (Crit Rat)) (hne : crits ≠ [])
+    (ec : KMap (ECrit Rat)) (hg : Guard crits ec) (m : Matrix Rat)
+    (h : credibilityMatrix alts crits ec = .ok m) (i i' : Nat) (hi : i < alts.length) (hi' : i' < alts.length)
+    (hdom : Dominates crits alts[i'] alts[i]) :
+    (i ≠ i' → m.at i' i = 1) ∧
+    ∀ x, (hx : x < alts.length) → x ≠ i → x ≠ i' → m.at i x ≤ m.at i' x ∧ m.at x i' ≤ m.at x i :=
+  credibilityMatrix_dominance alts crits hne ec (guardAll_of_guard hg) m h i i' hi hi' hdom
+
+/-- identical alternatives (each at least as good as the other) have the same credibilities towards and from
+    every third alternative, and σ = 1 between them -/
+theorem credibility_matrix_identical (alts : List (Alt Rat)) (crits : List (Crit Rat)) (hne : crits ≠ [])
+    (ec : KMap (ECrit Rat)) (hg : Guard crits ec) (m : Matrix Rat)
+    (h : credibilityMatrix alts crits ec = .ok m) (i i' : Nat) (hi : i < alts.length) (hi' : i' < alts.length)
+    (h1 : Dominates crits alts[i'] alts[i]) (h2 : Dominates crits alts[i] alts[i']) (hii : i ≠ i') :
+    m.at i' i = 1 ∧ m.at i i' = 1 ∧
+    ∀ x, (hx : x < alts.length) → x ≠ i → x ≠ i' → m.at i x = m.at i' x ∧ m.at x i' = m.at x i := by
+  obtain ⟨a1, a2⟩ := credibilityMatrix_dominance alts crits hne ec (guardAll_of_guard hg) m h i i' hi hi' h1
+  obtain ⟨b1, b2⟩ := credibilityMatrix_dominance alts crits hne ec (guardAll_of_guard hg) m h i' i hi' hi h2
+  refine ⟨a1 hii, b1 (Ne.symm hii), fun x hx hxi hxi' => ?_⟩
+  obtain ⟨p1, p2⟩ := a2 x hx hxi hxi'
+  obtain ⟨q1, q2⟩ := b2 x hx hxi' hxi
+  exact ⟨le_antisymm p1 q1, le_antisymm p2 q2⟩
+
+/-- dominance for the declarative distillations of any credibility matrix: if `a` dominates `b` on `σ_m`
+    (`DomSigma`: σ(a,x) ≥ σ(b,x), σ(x,a) ≤ σ(x,b) for every third x, σ(b,a) ≤ σ(a,b), `s ≥ 0` at σ(b,a), `s`
+    non-increasing) then `asc a ≤ asc b` and `desc a ≤ desc b` -/
+theorem dominance_spec_level (m : Matrix Rat) (s : LinFun Rat) (a b : Nat)
+    (h : DomSigma (Spec.C05.sigmaOf m) s m.size a b) (ha : a < m.size) (hb : b < m.size) :
+    (∀ asc, Spec.C05.specAscending m s = some asc → asc.getD a 0 ≤ asc.getD b 0) ∧
+    (∀ desc, Spec.C05.specDescending m s = some desc → desc.getD a 0 ≤ desc.getD b 0) :=
+  dom_spec_indices m h ha hb
+
+/-- **dominance, end to end on the model**: if alternative `ia` is at least as good as alternative `ib` on every
+    criterion (signed values), then in the answer of `ElectreIII` `ascendingIndex(ia) ≤ ascendingIndex(ib)`,
+    `descendingIndex(ia) ≤ descendingIndex(ib)` and `ia` lists `ib` in `betterThanOrSameAs`.
+    Domain: constant thresholds `0 ≤ q < p < v`, `k > 0`, in-domain distillation function. -/
+theorem electreIII_respects_dominance (alts : List (Alt Rat)) (crits : List (Crit Rat)) (hne : crits ≠ [])
+    (ec : KMap (ECrit Rat)) (hg : Guard crits ec) (dist : LinFun Rat) (hs : Spec.C05.distInDomain dist = true)
+    (ia ib : Nat) (hia : ia < alts.length) (hib : ib < alts.length) (hab : ia ≠ ib)
+    (hdom : Dominates crits alts[ia] alts[ib])
+    (out : List (Linked (Int × Int))) (h : electreIII alts crits ec dist = .ok out) :
+    ∃ (h1 : ia < out.length) (h2 : ib < out.length),
+      out[ia].ev.1 ≤ out[ib].ev.1 ∧ out[ia].ev.2 ≤ out[ib].ev.2 ∧ alts[ib].id ∈ out[ia].links :=
+  electreIII_dominance alts crits hne ec (guardAll_of_guard hg) dist hs ia ib hia hib hab hdom out h
+
+/-- **identical alternatives**: two alternatives that are at least as good as each other on every criterion (in
+    particular alternatives with identical criteria values) receive identical indices and list each other -/
+theorem electreIII_identical_alternatives (alts : List (Alt Rat)) (crits : List (Crit Rat)) (hne : crits ≠ [])
+    (ec : KMap (ECrit Rat)) (hg : Guard crits ec) (dist : LinFun Rat) (hs : Spec.C05.distInDomain dist = true)
+    (ia ib : Nat) (hia : ia < alts.length) (hib : ib < alts.length) (hab : ia ≠ ib)
+    (h1 : Dominates crits alts[ia] alts[ib]) (h2 : Dominates crits alts[ib] alts[ia])
+    (out : List (Linked (Int × Int))) (h : electreIII alts crits ec dist = .ok out) :
+    ∃ (ha : ia < out.length) (hb : ib < out.length),
+      out[ia].ev = out[ib].ev ∧ alts[ib].id ∈ out[ia].links ∧ alts[ia].id ∈ out[ib].links := by
+  obtain ⟨a1, a2, p1, p2, p3⟩ := electreIII_dominance alts crits hne ec (guardAll_of_guard hg) dist hs ia ib hia hib hab h1 out h
+  obtain ⟨_, _, q1, q2, q3⟩ := electreIII_dominance alts crits hne ec (guardAll_of_guard hg) dist hs ib ia hib hia
+    (Ne.symm hab) h2 out h
+  exact ⟨a1, a2, Prod.ext (le_antisymm p1 q1) (le_antisymm p2 q2), p3, q3⟩
+
+/-! ### listing order -/
+
+/-- the declarative distillation does not depend on the order in which the current set is listed: a permuted
+    list of alternatives gets the same class numbers -/
+theorem distillation_order_independent (σ : Nat → Nat → Rat) (s : LinFun Rat) (pm : Bool) (fN fo : Nat)
+    (A A' : List Nat) (h : A.Perm A') (k : Int) (asg : List (Nat × Int))
+    (hd : Spec.C05.distill σ s pm fN fo A k = some asg) :
+    ∃ asg', Spec.C05.distill σ s pm fN fo A' k = some asg' ∧ ∀ x, asg'.lookup x = asg.lookup x :=
+  distill_perm pm fN fo h k asg hd
+
+/-- equivariance of both distillations of the model: if `m'` is `m` with the alternatives listed in the order
+    `π` (a permutation of `0..n-1`), then alternative `i` of `m'` has the indices of alternative `π i` of `m` -/
+theorem rank_permutation_equivariant (m m' : Matrix Rat) (s : LinFun Rat) (π : Nat → Nat) (hπ : IsPerm m.size π)
+    (hsz : m'.size = m.size) (hm : ∀ i j, i < m.size → j < m.size → m'.at i j = m.at (π i) (π j))
+    (hlen : m.data.length = m.size * m.size) (hlen' : m'.data.length = m'.size * m'.size)
+    (asc asc' desc desc' : List Int)
+    (ha : rankAscending m s = .ok asc) (ha' : rankAscending m' s = .ok asc')
+    (hd : rankDescending m s = .ok desc) (hd' : rankDescending m' s = .ok desc') :
+    ∀ i, i < m.size → asc'.getD i 0 = asc.getD (π i) 0 ∧ desc'.getD i 0 = desc.getD (π i) 0 :=
+  fun i hi => ⟨rank_equivariant m m' π hπ hsz hm hlen hlen' true asc asc' ha ha' i hi,
+    rankDescending_equivariant m m' π hπ hsz hm hlen hlen' desc desc' hd hd' i hi⟩
+
+/-- **listing order, end to end on the model**: if `alts'` lists the alternatives of `alts` in another order
+    (`alts'[i] = alts[π i]`), the answer of `ElectreIII` carries the same pair of indices for every alternative.
+    (With `links_characterisation` of C05 the `betterThanOrSameAs` sets then agree as well, being determined
+    by the indices.)  No domain restriction is needed. -/
+theorem electreIII_permutation_equivariant (alts alts' : List (Alt Rat)) (crits : List (Crit Rat))
+    (ec : KMap (ECrit Rat)) (dist : LinFun Rat) (π : Nat → Nat) (hπ : IsPerm alts.length π)
+    (hl : alts'.length = alts.length)
+    (ha : ∀ i (hi : i < alts.length), alts'[i]'(by rw [hl]; exact hi) = alts[π i]'(hπ.lt i hi))
+    (out out' : List (Linked (Int × Int)))
+    (h : electreIII alts crits ec dist = .ok out) (h' : electreIII alts' crits ec dist = .ok out') :
+    out.length = alts.length ∧ out'.length = alts.length ∧
+    ∀ i (_ : i < alts.length) (h1 : i < out'.length) (h2 : π i < out.length), out'[i].ev = out[π i].ev :=
+  electreIII_equivariant alts alts' crits ec dist π hπ hl ha out out' h h'
+
+/-! ### scaling of the weights -/
+
+/-- multiplying every weight `k` by the same `c ≠ 0` leaves total concordance and credibility unchanged -/
+theorem weights_scaling_sigma (c : Rat) (hc : c ≠ 0) (a1 a2 : Alt Rat) (crits : List (Crit Rat)) (ec : KMap (ECrit Rat)) :
+    electreCredibility a1 a2 crits (scaleWeights c ec) = electreCredibility a1 a2 crits ec :=
+  electreCredibility_scale c hc a1 a2 crits ec
+
+/-- … hence the whole answer of `ElectreIII` (both indices and all links) is unchanged -/
+theorem weights_scaling_electreIII (c : Rat) (hc : c ≠ 0) (alts : List (Alt Rat)) (crits : List (Crit Rat))
+    (ec : KMap (ECrit Rat)) (dist : LinFun Rat) :
+    electreIII alts crits (scaleWeights c ec) dist = electreIII alts crits ec dist :=
+  electreIII_scale c hc alts crits ec dist
+
+/-! ### the hypotheses are satisfiable -/
+
+example : Guard [⟨"c", "gain", none⟩] [("c", ⟨2, ⟨0, 1/2⟩, ⟨0, 1⟩, ⟨0, 3⟩⟩)] := by
+  intro c hc t ht
+  simp only [List.mem_singleton] at hc
+  subst hc
+  simp only [KMap.get?, List.lookup, beq_self_eq_true, Option.some.injEq] at ht
+  subst ht
+  simp [Spec.C05.critInDomain]; norm_num
+
+example : IsPerm 3 (fun i => if i = 0 then 1 else if i = 1 then 0 else i) := by
+  refine ⟨fun i j h => ?_, by decide⟩
+  split_ifs at h <;> omega
+
+example : Dominates [⟨"c", "cost", none⟩] ⟨"a", [("c", (1 : Rat))]⟩ ⟨"b", [("c", (2 : Rat))]⟩ := by
+  intro c hc x y hx hy
+  simp only [List.mem_singleton] at hc
+  subst hc
+  simp [Alt.signed, Alt.raw, KMap.get?, List.lookup, Crit.mult, bind, Except.bind, pure, Except.pure] at hx hy
+  subst hx; subst hy
+  norm_num
+
+/-- the constants and names this property depends on were re-read from the working tree on this run
+    (none fell back to its pinned value because its declaration could not be located) -/
+theorem facts_fresh : (Rdm.Facts.staleFacts.all fun n => !["defaultDistillationA", "defaultDistillationB", "methodElectre"].contains n) = true := by decide
+
 end Rdm.Props.C06
